@@ -29,6 +29,7 @@ type MyBool bool
 type MyString string
 type MyStruct struct{ A int }
 type MyErr struct{ Code int }
+type MyErrChan chan error
 
 func (e MyErr) Error() string { return fmt.Sprintf("MyErr(%d)", e.Code) }
 
@@ -68,12 +69,15 @@ var c16Results = []rdesc{
 	{"chan error", reflect.TypeOf(make(chan error)), "chan"}, {"<-chan error", reflect.TypeOf((<-chan error)(nil)), "chan"},
 	{"uint", reflect.TypeOf(uint(0)), "uint"}, {"struct", reflect.TypeOf(MyStruct{}), "none"}, {"[]int", reflect.TypeOf([]int{}), "none"},
 	{"chan int", reflect.TypeOf(make(chan int)), "none"},
+	// channels a command bridge may or may not take; if it takes them it must cope with them
+	{"chan<- error", reflect.TypeOf((chan<- error)(nil)), "oddchan"}, {"chan MyErr", reflect.TypeOf(make(chan MyErr)), "oddchan"},
+	{"MyErrChan", reflect.TypeOf(MyErrChan(nil)), "oddchan"}, {"chan *MyErr", reflect.TypeOf(make(chan *MyErr)), "oddchan"},
 }
 
 func (c16) Cases(tier string) int {
 	if tier == "thorough" {
-		// 594 one-parameter + 2 * 13068 two-parameter / one-parameter-plus-variadic signatures, then PRNG samples
-		return 594 + 2*13068 + 40000
+		// 682 one-parameter + 2 * 15004 two-parameter / one-parameter-plus-variadic signatures, then PRNG samples
+		return 682 + 2*15004 + 40000
 	}
 	return 2600
 }
@@ -113,9 +117,9 @@ func (c16) Thresholds(tier string) map[string]int64 {
 
 func (c16) Exhaustive(tier string) (bool, string) {
 	if tier == "thorough" {
-		return true, "every one-parameter signature {22 parameter types} x {20 function result lists, 7 command result lists}, every two-parameter signature {22 x 22} x the same result lists, and every one-parameter-plus-variadic-tail signature {22 x 22} x the same result lists are enumerated completely (26730 signatures); signatures with three parameters or two results beyond these are PRNG-sampled"
+		return true, "every one-parameter signature {22 parameter types} x {20 function result lists, 11 command result lists}, every two-parameter signature {22 x 22} x the same result lists, and every one-parameter-plus-variadic-tail signature {22 x 22} x the same result lists are enumerated completely (30690 signatures); signatures with three parameters or two results beyond these are PRNG-sampled"
 	}
-	return true, "cases 0..593 enumerate every one-parameter function signature {22 parameter types} x {20 result lists} and every one-parameter command signature {22} x {7 result lists}; all other signatures (0-3 parameters, variadic tails, 0-2 results) are PRNG-sampled"
+	return true, "cases 0..681 enumerate every one-parameter function signature {22 parameter types} x {20 result lists} and every one-parameter command signature {22} x {11 result lists}; all other signatures (0-3 parameters, variadic tails, 0-2 results) are PRNG-sampled"
 }
 
 func (c16) Rule() string {
@@ -194,6 +198,9 @@ func (s sig) bridgeable() string {
 		switch len(s.results) {
 		case 0:
 		case 1:
+			if cls(0) == "oddchan" {
+				return "maybe"
+			}
 			if cls(0) != "error" && cls(0) != "chan" {
 				return "no"
 			}
@@ -229,7 +236,8 @@ func (s sig) bridgeable() string {
 	return res
 }
 
-var c16CommandResults = [][]rdesc{{}, {c16Results[11]}, {c16Results[12]}, {c16Results[13]}, {c16Results[14]}, {c16Results[0]}, {c16Results[16]}}
+var c16CommandResults = [][]rdesc{{}, {c16Results[11]}, {c16Results[12]}, {c16Results[13]}, {c16Results[14]}, {c16Results[0]}, {c16Results[16]},
+	{c16Results[19]}, {c16Results[20]}, {c16Results[21]}, {c16Results[22]}}
 
 func c16FuncResults() [][]rdesc {
 	out := [][]rdesc{{}}
@@ -280,6 +288,7 @@ func (c16) pickSig(c *core.Ctx) sig {
 	}
 	var s sig
 	s.command = r.Bool()
+	_ = 0
 	// mostly bridgeable parameter types, so that many signatures are accepted and called
 	pickParam := func() tdesc {
 		if r.Chance(1, 8) {
@@ -295,7 +304,7 @@ func (c16) pickSig(c *core.Ctx) sig {
 		s.variadic = &t
 	}
 	if s.command {
-		s.results = c16CommandResults[r.PickW(25, 25, 10, 20, 10, 5, 5)]
+		s.results = c16CommandResults[r.PickW(25, 25, 10, 20, 10, 5, 5, 4, 4, 4, 4)]
 	} else {
 		switch r.PickW(15, 50, 35) {
 		case 1:
@@ -442,6 +451,9 @@ func presetResult(r rdesc, mode int) (reflect.Value, string) {
 			return reflect.Zero(errType), "nil"
 		}
 		return reflect.ValueOf(MyErr{Code: 3}), "error"
+	case "oddchan":
+		// a non-nil channel of the odd type (nothing is ever sent on it by the probe)
+		return reflect.MakeChan(reflect.ChanOf(reflect.BothDir, r.t.Elem()), 1).Convert(r.t), "odd-channel"
 	case "chan":
 		switch mode % 3 {
 		case 0:
@@ -718,6 +730,13 @@ func (p c16) Run(c *core.Ctx) {
 		if o.Kind == mon.KPanic {
 			c.Violate("the bridge panicked on a script-side call", d)
 			return
+		}
+		oddChan := len(s.results) == 1 && s.results[0].class == "oddchan"
+		if oddChan {
+			// nothing is prescribed for such a result beyond "the bridge never panics": the command may fail,
+			// or wait for a completion that the probe never reports
+			c.Feature("odd-channel-result-survived")
+			continue
 		}
 		if o.Kind == mon.KWaiting {
 			c.Violate("a command whose handler returned never completed", d)
